@@ -105,3 +105,12 @@ add("C24", "model_checking",
     "points within the bound that no load sees a partial or foreign entry, every completed run returns its own table without raising, and only temporary names may stay partial. "
     "A second, model-free part runs the real load_model in sequential histories where each run dies before a symbolic operation index.",
     "N = 2 (thorough 2 and 3) runs, two texts. POSIX semantics assumed (atomic rename, per-name atomic operations); a crash skips finally blocks. The extractor refuses (reports) programs it does not understand.")
+
+add("C08", "translation_validation",
+    "bounded symbolic execution (CrossHair/z3) of the generated Python SDK's verification against the meta-model's own lambdas/functions exec'd as Python, on instances whose property values are all symbolic; path trees exhausted",
+    "For each model of the corpus the REAL generator emits the Python SDK, which is imported and executed symbolically: for every concrete class an instance is built from symbolic "
+    "values (strings, ints, bools, enum literals, optionals, lists, nested instances) and verification.verify(instance) is compared with the multiset of (description, path) of exactly those "
+    "source invariants (own, inherited, of constrained primitives, of nested instances) whose lambda - run by CPython on the same values - is False; generated pattern / transpilable "
+    "verification functions are compared with the source functions; verify may raise only where Python raises.",
+    "Corpus: two authored models covering the invariant forms of the property + the repository's common meta-models except aas_core_meta.v3. Large classes are checked per invariant "
+    "(properties the invariant reads symbolic, others fixed). Bounds in evidence. CrossHair's regex model is trusted for pattern functions (witnesses replayed concretely).")
